@@ -9,7 +9,7 @@ from vf import common, findings
 from vf.bounded import projects as P
 from vf.props import deductive, sync_ded
 
-KEYS = ["doctrans.emit:file", "doctrans.conformance:_conform_filename"]
+KEYS = ["doctrans.emit:file", "doctrans.conformance:_conform_filename", "doctrans.conformance:ground_truth", "doctrans.sync_properties:sync_properties"]
 
 
 def _main(argv):
